@@ -35,11 +35,13 @@ OkTokens ==
 
 BadTokens ==
   [ Hs     |-> { "LoneNul", "NulPrefixed", "NulSuffixed", "NonAscii", "LongLine", "PqShort", "PqNoSpace", "PqEmpty", "FwNoSpace", "FwEmpty",
-                 "SidNoDash", "SidNoB2", "SidEmpty", "SidUnclosed", "StarLine", "Garbage", "OnlyLF" },
+                 "SidNoDash", "SidNoB2", "SidEmpty", "SidUnclosed", "StarLine", "Garbage", "OnlyLF", "BlankFlood" },
     Cmd    |-> { "FAlone", "FGt", "FGtSpace", "FGtBadHex", "FGtWrongSum", "EndBlockNoProps", "PropNoFields", "PropFewFields",
                  "PropManyFields", "PropNonNumeric", "PropNegative", "PropHuge", "PropLongMid", "PropBadType", "PropA", "PropB",
-                 "UnknownCmd", "LoneNul", "NulPrefixed", "NonAscii", "LongLine", "StarLine", "Garbage", "SohInText" },
-    FsWait |-> { "FsTooMany", "FsTooFew", "FsInvalidChar", "FsOffsetNoDigits", "FsOffsetBeyond", "FsOffsetHuge", "FsEmpty", "FsNoSpace",
+                 "UnknownCmd", "LoneNul", "NulPrefixed", "NonAscii", "LongLine", "StarLine", "Garbage", "SohInText", "BlankFlood",
+                 "PropHugeCsize", "PropNegCsize" },
+    FsWait |-> { "FsTooMany", "FsTooFew", "FsInvalidChar", "FsOffsetNoDigits", "FsOffsetBeyond", "FsOffsetHuge", "FsOffsetMid", "FsOffsetAtEnd",
+                 "FsEmpty", "FsNoSpace",
                  "NotFs", "StarLine", "LoneNul", "Garbage" },
     Xfer   |-> { "FirstStar", "FirstOther", "HdrLenMismatch", "HdrNoNul", "HdrOffsetNonNumeric", "HdrOffsetWrong", "HdrLenZero",
                  "StxLen0Short", "StxShort", "EotBadSum", "EotLenMismatch", "EotMissingSum", "StrayByte",
